@@ -428,7 +428,12 @@ class StaticBinning(BinningBase):
             raise ValueError("Bins must be in rising order.")
         copy = self.copy()
         copy._bins = bins
-        # TODO: check for the right_edge??
+        # The last bin stays closed only if it is the closed last bin of the original
+        copy._includes_right_edge = bool(
+            self._includes_right_edge
+            and len(bins) > 0
+            and bins[-1, 1] == self.bins[-1, 1]
+        )
         return copy
 
     def _update_dict(self, a_dict):
